@@ -147,11 +147,12 @@ DV_CONTRACT(i64, int64_t, 64)
 /* ------------------------------------------------------------------ BitDecoder
  * ghost_len: length in bytes of the bit buffer (bit_buffer_end_ - bit_buffer_), universally quantified. */
 size_t ghost_len;
+size_t ghost_len2; /* second ghost byte index (prefix/frame statements) */
 uint32_t ghost_bit; /* ghost bit index */
 #define BD_MAXLEN ((size_t)1 << 40)
 #ifdef VERIF_CBMC
 int nondet_int(void); size_t nondet_size_t(void); uint32_t nondet_u32(void);
-#define GHOSTS() do { ghost_k = nondet_int(); ghost_len = nondet_size_t(); ghost_bit = nondet_u32(); } while (0)
+#define GHOSTS() do { ghost_k = nondet_int(); ghost_len = nondet_size_t(); ghost_len2 = nondet_size_t(); ghost_bit = nondet_u32(); } while (0)
 #else
 #define GHOSTS() ((void)0)
 #endif
@@ -235,12 +236,25 @@ __CPROVER_assigns(self->bit_decoder_.bit_offset_, *out_value);
                      __CPROVER_is_fresh((e)->buffer_.data, (e)->buffer_.cap))
 #define EB_SCALAR_CONTRACT(SFX, T) \
   bool EncoderBuffer_Encode_##SFX(struct EncoderBuffer *self, const T *data) \
-  __CPROVER_requires(EB_FRESH(self) && self->buffer_.size + sizeof(T) <= self->buffer_.cap && __CPROVER_is_fresh(data, sizeof(T)) && ghost_len < self->buffer_.cap) \
+  __CPROVER_requires(EB_FRESHN(self) && sizeof(T) <= self->buffer_.cap - self->buffer_.size && __CPROVER_is_fresh(data, sizeof(T)) && ghost_len2 < self->buffer_.cap) \
   __CPROVER_ensures(__CPROVER_return_value == !(self->bit_encoder_reserved_bytes_ > 0)) \
   __CPROVER_ensures(__CPROVER_return_value ==> (self->buffer_.size == __CPROVER_old(self->buffer_.size) + sizeof(T) && VAL_##SFX(self->buffer_.data + __CPROVER_old(self->buffer_.size)) == *data)) \
   __CPROVER_ensures(!__CPROVER_return_value ==> self->buffer_.size == __CPROVER_old(self->buffer_.size)) \
-  __CPROVER_ensures(ghost_len >= __CPROVER_old(self->buffer_.size) || self->buffer_.data[ghost_len] == __CPROVER_old(self->buffer_.data[ghost_len])) \
+  __CPROVER_ensures(ghost_len2 >= __CPROVER_old(self->buffer_.size) || self->buffer_.data[ghost_len2] == __CPROVER_old(self->buffer_.data[ghost_len2])) \
   __CPROVER_assigns(self->buffer_.size, __CPROVER_object_whole(self->buffer_.data));
+/* byte blocks of any length (vector model of any capacity up to 2^33) */
+#define EB_CAPMAXN ((size_t)1 << 33)
+#define EB_FRESHN(e) (__CPROVER_is_fresh(e, sizeof(struct EncoderBuffer)) && (e)->buffer_.cap <= EB_CAPMAXN && (e)->buffer_.size <= (e)->buffer_.cap && \
+                      __CPROVER_is_fresh((e)->buffer_.data, (e)->buffer_.cap))
+bool EncoderBuffer_EncodeBytes(struct EncoderBuffer *self, const void *data, size_t data_size)
+__CPROVER_requires(EB_FRESHN(self) && data_size <= self->buffer_.cap - self->buffer_.size && (data_size == 0 || __CPROVER_is_fresh(data, data_size)))
+__CPROVER_requires(ghost_len2 < self->buffer_.cap)
+__CPROVER_ensures(__CPROVER_return_value == !(self->bit_encoder_reserved_bytes_ > 0))
+__CPROVER_ensures(__CPROVER_return_value ==> self->buffer_.size == __CPROVER_old(self->buffer_.size) + data_size)
+__CPROVER_ensures(!__CPROVER_return_value ==> self->buffer_.size == __CPROVER_old(self->buffer_.size))
+__CPROVER_ensures((__CPROVER_return_value && ghost_len < data_size) ==> self->buffer_.data[__CPROVER_old(self->buffer_.size) + ghost_len] == ((const char *)data)[ghost_len])
+__CPROVER_ensures(ghost_len2 >= __CPROVER_old(self->buffer_.size) || self->buffer_.data[ghost_len2] == __CPROVER_old(self->buffer_.data[ghost_len2]))
+__CPROVER_assigns(self->buffer_.size, __CPROVER_object_whole(self->buffer_.data));
 EB_SCALAR_CONTRACT(u8, uint8_t)
 EB_SCALAR_CONTRACT(u16, uint16_t)
 EB_SCALAR_CONTRACT(u32, uint32_t)
